@@ -470,7 +470,9 @@ class RadialProfile(ProfileBase):
         x_max = int(min(np.ceil(self.xycen[0] + max_radius), shape[1]))
         y_min = int(max(np.floor(self.xycen[1] - max_radius), 0))
         y_max = int(min(np.ceil(self.xycen[1] + max_radius), shape[0]))
-        yidx, xidx = np.indices((y_max - y_min, x_max - x_min))
+        # the cutout is empty if the profile lies entirely off the image
+        yidx, xidx = np.indices((max(y_max - y_min, 0),
+                                 max(x_max - x_min, 0)))
         xidx += x_min
         yidx += y_min
         radii = np.hypot(xidx - self.xycen[0], yidx - self.xycen[1])
